@@ -94,6 +94,9 @@ type FuncCtx struct {
 	curFile        *ast.File
 	houdiniQueries int
 	demoted        []string
+	heapDeclLog    []heapDecl              // every lazy materialisation of a heap / memory array (name, sort)
+	loopHeapKeys   map[ast.Node][]heapDecl // arrays a loop body was seen to touch (cached probe result)
+	probing        int                     // > 0 while a loop body is executed only to discover the arrays it touches
 	kept           map[int][]string
 	keepOnly       map[string]bool // real pass: names of the candidates kept by the first pass
 	inlineStack    []*types.Func
@@ -228,6 +231,11 @@ type fxSnapshot struct {
 	nExits                                              int
 	oblNames                                            map[string]int
 	nRecInfo, nRecSeen, nRecUnfold, nRecFrames, nRecTop int
+}
+
+type heapDecl struct {
+	name string
+	sort Sort
 }
 
 func (fx *FuncCtx) snapshot() fxSnapshot {
